@@ -116,6 +116,14 @@ def random_plan(rng: random.Random, job: str, variant: int, n: int, with_console
                 [op("USE", s1), op("RESOLVE", rng.choice(names)), op("RESOLVE", s1)],
                 [console(rng.choice(CONSOLE_TEXTS)), op("USE", s1), op("KEYDOWNSTOP", s1), op("RESOLVE", s1)],
             ])
+            if rng.random() < 0.4:
+                # `xN <op>` in a plan text: the parser returns THE SAME Operation object N times (a key-down skill
+                # resolved repeatedly, as the shipped example plans do)
+                kd = [k.name for k in safe_view(eng, "keydown", []) if k.name in valid]
+                if kd and rng.random() < 0.7:
+                    s1 = rng.choice(kd)          # a key-down skill: its successive RESOLVEs wait for different delays
+                shared = op(rng.choice(["RESOLVE", "RESOLVE", "RESOLVE", "USE", "CAST"]), s1)
+                pat = [op("USE", s1)] + [shared] * rng.randint(2, 4)
             last_skill = s1
             pending = pat[1:]
             c = pat[0]
